@@ -146,9 +146,13 @@ def stringize(arg):
     return '"' + "".join(parts) + '"'
 
 
+_PLACEMARKER = ("", frozenset(), False)
+_PASTE = object()  # the ## operator of the replacement list (a "##" spelled by an argument is an ordinary token)
+
+
 def subst(body, params, actuals, hs, macros):
-    os_ = []
-    i = 0
+    """C11 6.10.3.1-3: phase 1 replaces parameters (operands of # and ## unexpanded, an empty operand of ## becomes a
+    placemarker), phase 2 applies the ## operators from left to right, then placemarkers are dropped."""
     n = len(body)
 
     def is_param(tok):
@@ -157,54 +161,48 @@ def subst(body, params, actuals, hs, macros):
     def sel(tok):
         return actuals[params.index(tok)]
 
+    items = []
+    i = 0
     while i < n:
         t = body[i]
         nxt = body[i + 1] if i + 1 < n else None
+        prv = body[i - 1] if i > 0 else None
         if t == "#" and params is not None and nxt is not None and is_param(nxt):
-            os_.append((stringize(sel(nxt)), frozenset(), True))
+            items.append((stringize(sel(nxt)), frozenset(), True))
             i += 2
             continue
-        if t == "##" and nxt is not None:
-            if is_param(nxt):
-                a = sel(nxt)
-                if a:
-                    os_ = _glue(os_, list(a))
-            else:
-                os_ = _glue(os_, [(nxt, frozenset(), False)])
-            i += 2
-            continue
-        if nxt == "##" and is_param(t):
-            a = sel(t)
-            if not a:
-                # empty left operand: the right operand (if a parameter) is inserted unexpanded
-                nn = body[i + 2] if i + 2 < n else None
-                if nn is not None and is_param(nn):
-                    os_.extend(sel(nn))
-                    i += 3
-                else:
-                    i += 2
-                    if nn is not None:
-                        os_.append((nn, frozenset(), True))
-                        i += 1
-                continue
-            os_.extend(a)  # unexpanded
+        if t == "##" and 0 < i < n - 1:
+            items.append(_PASTE)
             i += 1
             continue
         if is_param(t):
-            os_.extend(expand(sel(t), macros))
+            if nxt == "##" or prv == "##":
+                a = list(sel(t))
+                items.extend(a if a else [_PLACEMARKER])
+            else:
+                items.extend(expand(sel(t), macros))
             i += 1
             continue
-        os_.append((t, frozenset(), True))
+        items.append((t, frozenset(), True))
         i += 1
-    return [(sp, h | hs, w) for sp, h, w in os_]
-
-
-def _glue(ls, rs):
-    if not ls:
-        return rs
-    l, lh, lw = ls[-1]
-    r, rh, _rw = rs[0]
-    return ls[:-1] + [(glue_spelling(l, r), lh & rh, lw)] + rs[1:]
+    out = []
+    j = 0
+    while j < len(items):
+        it = items[j]
+        if it is _PASTE:
+            lhs = out.pop()
+            rhs = items[j + 1]
+            if lhs is _PLACEMARKER:
+                out.append(rhs)
+            elif rhs is _PLACEMARKER:
+                out.append(lhs)
+            else:
+                out.append((glue_spelling(lhs[0], rhs[0]), lhs[1] & rhs[1], lhs[2]))
+            j += 2
+            continue
+        out.append(it)
+        j += 1
+    return [(sp, h | hs, w) for sp, h, w in out if sp != ""]  # (only a placemarker has an empty spelling)
 
 
 def lex_ws(text):
